@@ -8,6 +8,9 @@ Inductive stops_fr (K : nat) : nat -> list event -> Prop :=
 | sf_nil : stops_fr K K []
 | sf_snoc k l : stops_fr K (S k) l -> stops_fr K k (l ++ [EStopCall k; EStopRet k]).
 
+Lemma stops_fr_le K k l : stops_fr K k l -> k <= K.
+Proof. induction 1; lia. Qed.
+
 Definition stops (s : state) : list event := stop_evs (rev (hist s)).
 
 Lemma stops_cons_other s e h :
